@@ -288,28 +288,61 @@ Theorem C13_truncate_polygon_is_plaquette : forall (L : lattice) (vs : option (l
 Proof. exact truncate_polygon_is_plaquette. Qed.
 Print Assumptions C13_truncate_polygon_is_plaquette.
 
-(* PARTIAL, clause "every old plaquette enlarged by one side per truncated corner", local form: a face walk of L
-   that enters v along e_u leaves along e_{u+1}; in L' the same dart of e_u enters corner u, continues along the
-   polygon edge pe u to corner u+1 and leaves along e_{u+1} in the same direction: one new side at this corner.
-   MISSING: the global statement (needs the unchanged rotation system at untouched vertices, the correspondence of
-   whole orbits and the validity filters of the enlarged walks). *)
-Theorem C13_truncate_corner_detour_partial : forall (L : lattice) (vs : option (list nat)) (v u : nat) (b : bool),
-  wf_lattice L = true -> no_self_loops L = true -> (v < nV L)%nat -> is_truncated L vs v = true ->
-  turns_cw L v = true -> (u < length (sorted_adj L v))%nat ->
-  let d := length (sorted_adj L v) in
-  let e := nth u (sorted_adj L v) 0%nat in
-  let u1 := Nat.modulo (u + 1) d in
-  let e1 := nth u1 (sorted_adj L v) 0%nat in
-  dhead L (e, b) = v ->
+(* ------------------------------------------------------------------ truncation: the old plaquettes *)
+(* Clause "every old plaquette enlarged by one side per truncated corner" (proofs in Proofs/TruncateOldFaces.v,
+   Proofs/TruncateOldValid.v).  Hypothesis all_turns_cw L vs = true: turns_cw at every truncated vertex.
+     pdart L vs a       for an old dart a = (e, b) entering the truncated vertex h at its u-th edge: the polygon
+                        dart (pe h u, true), from corner u to corner u+1
+     expand L vs w      the walk w with that polygon step inserted after every step that enters a truncated vertex
+     ncorners L vs w    the number of such steps = truncated corners passed by w *)
+From Koala Require Import Proofs.TruncateOldFaces Proofs.TruncateOldValid.
+
+(* the dart successor of the truncated lattice, completely: the rotation-system row of a vertex that is not
+   truncated is unchanged (same edge ids, same order); a face walk passes such a vertex as before; a face walk
+   entering a truncated vertex along its u-th edge takes the polygon edge to corner u+1 and then continues as the
+   old walk did (together with C13_truncate_polygon_is_orbit for the backward polygon darts this determines nd L'
+   on every dart) *)
+Theorem C13_truncate_nd_complete : forall (L : lattice) (vs : option (list nat)),
+  wf_lattice L = true -> no_self_loops L = true -> all_turns_cw L vs = true ->
   exists L', vertices_to_polygon L vs = Some L' /\
-    nd L (e, b) = Some (out_dart L v e1) /\
-    dhead L' (e, b) = cn L vs v u /\
-    nd L' (e, b) = Some (pe L vs v u, true) /\
-    dhead L' (pe L vs v u, true) = cn L vs v u1 /\
-    nd L' (pe L vs v u, true) = Some (out_dart L' (cn L vs v u1) e1) /\
-    snd (out_dart L' (cn L vs v u1) e1) = snd (out_dart L v e1).
-Proof. exact truncate_corner_detour_partial. Qed.
-Print Assumptions C13_truncate_corner_detour_partial.
+    (forall x, (x < nV L)%nat -> is_truncated L vs x = false ->
+       sorted_adj L' (base_index L vs x) = sorted_adj L x) /\
+    (forall a, valid_dart L a ->
+       if is_truncated L vs (dhead L a)
+       then nd L' a = Some (pdart L vs a) /\ nd L' (pdart L vs a) = nd L a
+       else nd L' a = nd L a).
+Proof. exact truncate_nd_complete. Qed.
+Print Assumptions C13_truncate_nd_complete.
+
+(* every face walk of L (entry of the sweep all_faces, before the validity filters) becomes the closed orbit
+   expand w of the dart successor of L', with one more side per truncated corner, and the sweep of L' lists a
+   cyclic rotation of it *)
+Theorem C13_truncate_old_faces : forall (L : lattice) (vs : option (list nat)) (fs : list face) (f : face),
+  wf_lattice L = true -> no_self_loops L = true -> all_turns_cw L vs = true ->
+  all_faces L = Some fs -> In f fs ->
+  exists L' fs', vertices_to_polygon L vs = Some L' /\ all_faces L' = Some fs' /\
+    orbit_walk L' (expand L vs (f_walk f)) /\
+    length (expand L vs (f_walk f)) = (length (f_walk f) + ncorners L vs (f_walk f))%nat /\
+    exists f' l1 l2, In f' fs' /\ expand L vs (f_walk f) = l1 ++ l2 /\ f_walk f' = l2 ++ l1.
+Proof. exact truncate_old_faces. Qed.
+Print Assumptions C13_truncate_old_faces.
+
+(* clause "every old plaquette enlarged by one side per truncated corner": every entry p of the plaquette list of L
+   (walk w) reappears in the plaquette list of the truncated lattice as the walk expand w read from some starting
+   point (l2 ++ l1 where expand w = l1 ++ l2), i.e. it passes the three coded filters (no repeated edge: the
+   polygon edges are new and pairwise different; net crossing: the edge vectors add up to 3 times the old sum;
+   winding number: unchanged, each truncated corner being a left turn split at its diagonal), and it has
+   n_sides p + (number of truncated corners passed) sides *)
+Theorem C13_truncate_old_plaquette_enlarged :
+  forall (L : lattice) (vs : option (list nat)) (ps : list plaquette) (p : plaquette),
+  wf_lattice L = true -> no_self_loops L = true -> all_turns_cw L vs = true ->
+  find_all_plaquettes L = Some ps -> In p ps ->
+  exists L' ps', vertices_to_polygon L vs = Some L' /\ find_all_plaquettes L' = Some ps' /\
+    exists w l1 l2, orbit_walk L w /\ p = mk_plaquette L w /\ expand L vs w = l1 ++ l2 /\
+      let p' := mk_plaquette L' (l2 ++ l1) in
+      In p' ps' /\ n_sides p' = (n_sides p + ncorners L vs w)%nat.
+Proof. exact truncate_old_plaquette_enlarged. Qed.
+Print Assumptions C13_truncate_old_plaquette_enlarged.
 
 (* non-vacuity: on the 2x2 square torus every vertex is truncated and satisfies turns_cw; the polygon of vertex 0
    (edges 8..11, one of them with non-zero crossing on each side of the cell) is reported by find_all_plaquettes of
@@ -317,6 +350,9 @@ Print Assumptions C13_truncate_corner_detour_partial.
    again (truncation followed by truncation) *)
 Example C13_truncate_polygon_nonvacuous :
   forallb (fun v => is_truncated C13_square2 None v && turns_cw C13_square2 v) (seq 0 4) = true /\
+  all_turns_cw C13_square2 None = true /\
+  option_map (map (fun p => (n_sides p, ncorners C13_square2 None (combine (combine (p_edges p) (p_verts p)) (p_dirs p)))))
+             (find_all_plaquettes C13_square2) = Some [(4, 4); (4, 4); (4, 4); (4, 4)]%nat /\
   option_map (fun L' => map (fun u0 => winding (map (dvec L') (pwalk C13_square2 None 0 u0))) (seq 0 4))
              (vertices_to_polygon C13_square2 None) = Some [-1; -1; -1; -1]%Z /\
   option_map (fun L' => existsb (fun c => negb (Z.eqb (fst c) 0) || negb (Z.eqb (snd c) 0))
